@@ -291,14 +291,21 @@ def step (line : String) : String :=
       else if b.action == "accept-line" then { s with done := true }
       else if b.action == "self-insert" || b.action.startsWith "verif-probe-" then
         { s with log := s.log ++ [(b.action, s.eng.keys.matched)] }
-      else s }
+      -- any other command of the default keymaps (type-ahead and fed keys can combine into one, C-x C-x for
+      -- instance): it may move the cursor or edit, which this model of the loop does not follow
+      else if b.action == "yank" then s      -- C-y: nothing has been killed, nothing is yanked
+      else { s with log := s.log ++ [("~other:" ++ b.action, [])] } }
     let (s, ok) := MLoop.session C 3000 ((parseList chunks ",").map parseNats) { eng := e }
     let hex2 (n : Nat) : String := String.ofList [Nat.digitChar (n / 16 % 16), Nat.digitChar (n % 16)]
     let hex (l : List Nat) : String := String.join ((utf8 l).map hex2)
-    let probes := (s.log.filter fun (a, _) => a != "self-insert").map fun (a, ks) => s!"{a}:{hex ks}"
+    let probes := (s.log.filter fun (a, _) => a != "self-insert" && !a.startsWith "~other").map fun (a, ks) => s!"{a}:{hex ks}"
+    let others := (s.log.filter fun (a, _) => a.startsWith "~other").map fun (a, _) => (a.drop 7).toString
+    let other := !others.isEmpty
     let line := (s.log.filter fun (a, _) => a == "self-insert").flatMap fun (_, ks) =>
       (ks.take 1).flatMap fun k => if om && k != 0x1b then [k] else Loop.quote k
-    let last := if !ok then "FUEL" else if s.done then s!"line:{hex line}" else "blocked"
+    -- after such a command only the characters inserted are compared, not where
+    let last := if !ok then "FUEL" else if s.done then
+        (if other then s!"line~:{",".intercalate others.eraseDups}" else s!"line:{hex line}") else "blocked"
     " ".intercalate (probes ++ [last])
   | ["local", emacs, isearch, regs, tbl, chunks] =>
     let table : List (List Nat × Bind) := (parseList tbl ";").filterMap fun ent =>
